@@ -15,6 +15,7 @@
 -/
 import DulwichModel.Lemmas.Missing
 import DulwichModel.Lemmas.Negotiate
+import DulwichModel.Lemmas.Shallow
 
 namespace Dulwich.Props.C05
 open Dulwich Dulwich.Graph Dulwich.Missing
@@ -237,6 +238,83 @@ removing either check breaks this obligation. -/
 theorem validation_checks_in_source :
     Gen.wantCheckedAgainstAdvertised = true ∧ Gen.haveCheckedAgainstStore = true := by decide
 
+/-! ## 6b. Shallow boundaries on the wire.
+
+A shallow receiver announces its whole boundary in every request — whatever the depth argument
+(none, 0, finite, infinite), with or without deepen-since / deepen-not, protocol v0/v1 or v2.  The
+sender can then never take history below the boundary for present. -/
+
+open Dulwich.Shallow in
+theorem request_announces_boundary (st : ClientSt) (wants : List Id) (depthOpt : Option Nat)
+    (since exclude v2 : Bool) :
+    shallowLines (mkRequest st wants depthOpt since exclude v2) = st.shallow := by
+  have flat : ∀ l : List ReqLine, (∀ e ∈ l, ∀ x, e ≠ ReqLine.shallow x) → shallowLines l = [] := by
+    intro l hl
+    induction l with
+    | nil => rfl
+    | cons e es ih =>
+      have he := hl e (by simp)
+      have := ih (fun e' he' => hl e' (by simp [he']))
+      cases e <;> simp_all [shallowLines]
+  by_cases hs : st.shallow = []
+  · -- nothing to announce: no line of the request is a shallow line
+    rw [hs]
+    apply flat
+    intro e he x hx
+    subst hx
+    unfold mkRequest at he
+    rw [hs] at he
+    cases depthOpt <;> cases since <;> cases exclude <;> cases v2 <;> simp [deepening] at he <;>
+      (try split at he) <;> simp at he
+  · have hne : st.shallow.isEmpty = false := by
+      cases h : st.shallow with
+      | nil => exact absurd h hs
+      | cons _ _ => rfl
+    have hg : (deepening depthOpt since exclude || (Gen.headAnnouncesWhenShallow && !st.shallow.isEmpty)) = true := by
+      simp [Gen.headAnnouncesWhenShallow, hne]
+    unfold mkRequest
+    rw [if_pos hg]
+    simp only [shallowLines_append, shallowLines_want, shallowLines_shallow, List.nil_append]
+    have r2 : shallowLines (if since = true then [ReqLine.deepenSince] else []) = [] := by cases since <;> rfl
+    have r3 : shallowLines (if exclude = true then [ReqLine.deepenNot] else []) = [] := by cases exclude <;> rfl
+    have r4 : shallowLines (if v2 = true then [] else [ReqLine.flush]) = [] := by cases v2 <;> rfl
+    have r5 : shallowLines [ReqLine.done] = [] := rfl
+    have r6 : shallowLines (if v2 = true then [ReqLine.flush] else []) = [] := by cases v2 <;> rfl
+    simp only [r2, r3, r4, r5, r6, List.append_nil]
+    cases depthOpt <;> simp [shallowLines]
+
+open Dulwich.Shallow in
+/-- The server never tells the client to unshallow a commit the wants do not reach, at any depth
+(the infinite one included): every `unshallow X` names one of the client's shallow commits that is
+reachable from this fetch's wants, so its ancestry is part of what this transfer covers. -/
+theorem unshallow_sound (s : Store) (fuel : Nat) (wants clientShallow : List Id) (depth : Nat)
+    (a : Answer) (h : shallowAnswer s fuel wants clientShallow depth = .ok a) :
+    ∀ x ∈ a.unshallow, Reach s wants x ∧ x ∈ clientShallow := by
+  unfold shallowAnswer at h
+  split at h
+  · cases h
+  · rename_i r hr
+    cases h
+    have hs := findShallow_sound s fuel wants depth r hr
+    intro x hx
+    simp only [Gen.unshallowFromWalk, if_true, List.mem_filter] at hx
+    exact ⟨hs.2 x hx.1, by simpa using hx.2⟩
+
+open Dulwich.Shallow in
+/-- …and a new boundary commit is reachable from the wants and was not a boundary of the client. -/
+theorem new_shallow_sound (s : Store) (fuel : Nat) (wants clientShallow : List Id) (depth : Nat)
+    (a : Answer) (h : shallowAnswer s fuel wants clientShallow depth = .ok a) :
+    ∀ x ∈ a.newShallow, Reach s wants x ∧ x ∉ clientShallow := by
+  unfold shallowAnswer at h
+  split at h
+  · cases h
+  · rename_i r hr
+    cases h
+    have hs := findShallow_sound s fuel wants depth r hr
+    intro x hx
+    simp only [List.mem_filter] at hx
+    exact ⟨hs.1 x hx.1.1, by simpa using hx.2⟩
+
 /-! ## 7. Non-vacuity: a concrete history (root commit 2, child commit 5 sharing a subtree and
 carrying a gitlink, a tag 6 of the commit, a tag 7 of the tag) on which all hypotheses hold. -/
 
@@ -244,6 +322,12 @@ def demo : List (Id × Obj) :=
   [(0, .blob), (1, .tree [(.file, 0)]), (2, .commit 1 []),
    (3, .blob), (4, .tree [(.file, 3), (.dir, 1), (.gitlink, 9)]), (5, .commit 4 [2]),
    (6, .tag 5), (7, .tag 6)]
+
+/-- Infinite deepen of `main` (7 → commit 5) by a client shallow at 5 and at a commit the wants do not
+reach (12, on another root): only 5 is unshallowed. -/
+example :
+    (Dulwich.Shallow.shallowAnswer (ofList (demo ++ [(10, .blob), (11, .tree [(.file, 10)]), (12, .commit 11 [])]))
+      40 [7] [5, 12] 0x7FFFFFFF).map (·.unshallow) = .ok [5] := by decide
 
 theorem demo_wellTyped : WellTyped (ofList demo) := wellTyped_ofList demo (by decide)
 
